@@ -79,6 +79,43 @@ pub fn guard_soup(rng: &mut Rng) -> Vec<u8> {
     v
 }
 
+/// like `guard_soup` but as a random walk over a stack of open select / template contexts, so that properly nested and
+/// properly closed select / template structures (followed by text-mode elements) are common
+pub fn guard_walk(rng: &mut Rng) -> Vec<u8> {
+    const PAYLOAD: &[&str] = &["<b>x</b>", "<i>", "t", "<!--c-->", "</b>", "<option>o", "<optgroup>"];
+    let mut v: Vec<u8> = vec![];
+    let mut stack: Vec<&str> = vec![];
+    if rng.chance(1, 8) {
+        v.extend_from_slice(b"<frameset>");
+    }
+    for _ in 0..rng.range(3, 16) {
+        match rng.below(12) {
+            0..=3 => {
+                let what = if stack.last().is_none_or(|t| *t == "template") && rng.chance(2, 3) { "select" } else { "template" };
+                v.extend_from_slice(format!("<{what}>").as_bytes());
+                stack.push(what);
+            }
+            4..=6 => {
+                if let Some(t) = stack.pop() {
+                    v.extend_from_slice(format!("</{t}>").as_bytes());
+                }
+            }
+            7 => v.extend_from_slice(rng.pick(&["</select>", "</template>", "</frameset>"]).as_bytes()),
+            8 => v.extend_from_slice(rng.pick(&["<input>", "<keygen>", "<textarea>x</textarea>", "<select>", "<hr>", "<td>"]).as_bytes()),
+            9 | 10 => {
+                let name = *rng.pick(TEXT_MODE_NAMES);
+                v.extend_from_slice(format!("<{name}>").as_bytes());
+                v.extend_from_slice(rng.pick(PAYLOAD).as_bytes());
+                if rng.chance(4, 5) {
+                    v.extend_from_slice(format!("</{name}>").as_bytes());
+                }
+            }
+            _ => v.extend_from_slice(rng.pick(PAYLOAD).as_bytes()),
+        }
+    }
+    v
+}
+
 fn push_tag(rng: &mut Rng, out: &mut Vec<u8>, kind: SoupKind) {
     let end = rng.chance(2, 5);
     out.push(b'<');
